@@ -148,6 +148,49 @@ def run(ctx: Ctx):
                                "what": f"valid encoding {b[:16].hex()} decoded from a buffer that held {a[:16].hex()} before gives {again[:16].hex()} / "
                                        f"{again3[:16].hex()} instead of {cb[:16].hex()}"})
     ctx.extra["buffer_reuse_pairs"] = nref
+    # what a data item's definition allows does not depend on what was assigned to other instances before: values that are
+    # refused (tuples, integers beyond every width) are offered to every catalogued data item class that allows several
+    # formats, then fresh instances must still decode every allowed format
+    import inspect
+
+    import secsgem.secs.data_items as di
+    classes = [c for _n, c in inspect.getmembers(di, inspect.isclass)
+               if getattr(c, "__allowedtypes__", None) and len(c.__allowedtypes__) > 1 and issubclass(c, var.Dynamic)]
+    samples = {"L": bytes([0x01, 0x02, 0xA5, 0x01, 0x05, 0x41, 0x01, 0x78]), "A": b"\x41\x01a", "B": b"\x21\x01\x07", "BOOLEAN": b"\x25\x01\x01",
+               "U1": b"\xa5\x01\x05", "U2": b"\xa9\x02\x01\x02", "U4": b"\xb1\x04\x00\x00\x00\x09", "U8": b"\xa1\x08" + bytes(8),
+               "I1": b"\x65\x01\xff", "I2": b"\x69\x02\xff\xfe", "I4": b"\x71\x04" + bytes(4), "I8": b"\x61\x08" + bytes(8),
+               "F4": b"\x91\x04\x3f\x80\x00\x00", "F8": b"\x81\x08\x3f\xf0" + bytes(6)}
+    tname = {var.Array: "L", var.String: "A", var.Binary: "B", var.Boolean: "BOOLEAN", var.U1: "U1", var.U2: "U2", var.U4: "U4", var.U8: "U8",
+             var.I1: "I1", var.I2: "I2", var.I4: "I4", var.I8: "I8", var.F4: "F4", var.F8: "F8"}
+    ndi = 0
+    allowed_before = {c: list(c.__allowedtypes__) for c in classes}        # what the definitions allow, read before any use
+    for c in classes:
+        for odd in ((1, 2), 10 ** 40, -(10 ** 40), object()):
+            try:
+                c(odd)
+            except Exception:  # noqa: BLE001
+                pass
+    for c in classes:
+        for T in allowed_before[c]:
+            nm = tname.get(T)
+            if nm is None:
+                continue
+            data = samples[nm]
+            if getattr(c, "__count__", -1) not in (-1, None) and nm in ("A", "B"):
+                pass
+            ndi += 1
+            try:
+                o = c()
+                pos = o.decode(data + GARBAGE, 0)
+                again = bytes(o.encode())
+            except Exception as exc:  # noqa: BLE001
+                ctx.violation({"check": "data-item-allowed-format", "item": c.__name__, "fmt": nm, "error": type(exc).__name__,
+                               "what": f"data item {c.__name__} allows format {nm} but rejects the valid item {data.hex()}: {exc!r}"})
+                continue
+            if pos != len(data) or again != data:
+                ctx.violation({"check": "data-item-allowed-format", "item": c.__name__, "fmt": nm, "got": again.hex(),
+                               "what": f"data item {c.__name__} decodes the valid {nm} item {data.hex()} to {again.hex()}"})
+    ctx.extra["data_item_format_pairs"] = ndi
     ctx.evaluations += 2 * len(nlb) + len(vec)
     ctx.nontrivial += 2 * len(nlb)
     ctx.sample({"item": nlb[0]["item"], "nlb": nlb[0]["nlb"], "bytes": bytes(nlb[0]["bytes"]).hex(), "canonical": bytes(nlb[0]["canon"]).hex()})
